@@ -660,6 +660,35 @@ func handle(req *request) (ans map[string]any) {
 			res[i] = "F:" + f + " S:" + sv + pan
 		}
 		ans["results"] = res
+	case "postbatch":
+		// items: [method, path, body]; JSON content type; answer "status hN wN [panic]"
+		res := make([]string, len(req.Items))
+		s.cur = &req.Script
+		for i, it := range req.Items {
+			s.ob = &obs{}
+			hr := &http.Request{Method: it[0], URL: &url.URL{Path: it[1]}, Header: http.Header{"Content-Type": []string{"application/json"}},
+				Proto: "HTTP/1.1", ProtoMajor: 1, ProtoMinor: 1, Host: "x", Body: io.NopCloser(strings.NewReader(it[2])), ContentLength: int64(len(it[2]))}
+			hr = hr.WithContext(context.Background())
+			rec := httptest.NewRecorder()
+			cw := &countingWriter{ResponseWriter: rec}
+			pan := ""
+			func() {
+				defer func() {
+					if r := recover(); r != nil {
+						pan = " panic=" + fmt.Sprint(r)
+					}
+				}()
+				s.h.ServeHTTP(cw, hr)
+			}()
+			res[i] = fmt.Sprintf("%d h%d w%d%s", rec.Code, s.ob.HandlerCalled, cw.writeHeaders, pan)
+			if s.ob.HandlerCalled > 0 && req.Text == "canon" {
+				res[i] += " req=" + s.ob.Req
+			}
+			if rec.Code == 400 && req.Text == "why" {
+				res[i] += " why=" + rec.Body.String()
+			}
+		}
+		ans["results"] = res
 	case "raw":
 		s.cur = &req.Script
 		s.ob = &obs{}
